@@ -5,7 +5,7 @@ CONSTANTS
   RestDurs = {1}
   NodeDurs = {0,1,2,3}
   UseSw = TRUE
-  UseFs = FALSE
+  FsOps = {}
   AllowRestart = TRUE
   InitSw = {"GOOD", "UNUSED"}
 VIEW View
@@ -24,5 +24,4 @@ PROPERTY RestoreInWindow
 PROPERTY OsScanInWindow
 PROPERTY InstantOnlyAtZero
 PROPERTY OffTicksChangeNothing
-
 CHECK_DEADLOCK TRUE
